@@ -435,6 +435,31 @@ func main() {
 		}
 	}
 
+	// ---- spy: the user callback looks at the receiver while the method runs (live ToMetaSlice on the unsafe wrappers, the
+	// captured underlying slice on the safe ones) and what it saw is recorded; except for the in-place methods it must see
+	// the receiver exactly as it was before the call ----
+	callbackMethods := map[string]bool{"EqualFunc": true, "CompareFunc": true, "IndexFunc": true, "ForEach": true, "IsSortedFunc": true,
+		"BinarySearchFunc": true, "Filter": true, "FilterToSlice": true, "FilterToBSlice": true, "CompactFunc": true,
+		"SortFunc": true, "SortFuncToSlice": true, "SortFuncToBSlice": true, "SortComparator": true, "SortComparatorToSlice": true,
+		"SortComparatorToBSlice": true, "SortStableFunc": true, "SortStableFuncToSlice": true, "SortStableFuncToBSlice": true}
+	for k, c := range familyContents {
+		for _, variant := range []int{k, k + 1} {
+			for _, op1 := range oneVariantPerMethod(valueOps(c, true), variant) {
+				if !callbackMethods[op1.Name] {
+					continue
+				}
+				op1.Spy = true
+				runCase(w, "spy", (k+variant)%2, c, []op{op1})
+				if variant == k {
+					runCase(w, "spy", 1-(k+variant)%2, c, []op{op1})
+					if o.Thorough() || (k+len(op1.Name))%2 == 0 {
+						runCase(w, "spy", 2+(k+len(op1.Name))%6, c, []op{op1})
+					}
+				}
+			}
+		}
+	}
+
 	// ---- rand: profiled contents, malformed indexes ----
 	nr := 2000
 	if o.Thorough() {
@@ -467,12 +492,14 @@ func main() {
 	}
 
 	genRecs(w, rng, o.Thorough())
+	genFloats(w, rng, o.Thorough())
 	genBMap(w, rng, o.Thorough())
 
 	w.Close(o, "bslice: one case = one logical content (ints), 3 capacity variants (clipped, cap=len+1, cap=2*len+8; for the empty content also the nil slice), "+
 		"a sequence of 1..5 method calls executed on the real wrappers; every call records panic/error/result/receiver window/array identity/alias probe per variant. "+
 		"exh = every method x every argument in [-1,len+1] x contents over {0,1,2} (quick: value-driven methods on all contents of length<=3, index-driven methods on all contents of length<=1 and two per longer length; thorough: all of length<=4); "+
 		"wrap = every method through each of the 8 wrappers on a family of contents (single, all negative, all equal, mixed signs, large magnitudes, empty); exh-neg = order/magnitude methods on all contents of length<=3 over {-3,-1,7} through the unsafe and safe wrapper of the defining flavour; stable = stable sorts on 13..62 elements with equal keys; detach = hand a slice over, reset/rebind the receiver (Clear, Filter, Unmarshal, Delete, Clip), then write through it; every slice handed over (constructor argument, every returned slice) is re-read after every later call of the case; rand = profiled contents up to length 40 with indexes in [-2,n+2]; seq = sequences of 2..5 calls. "+
+		"spy = callback-taking methods with callbacks that look at the receiver mid-call; float = Ordered/Calculable wrappers over float64/float32 with NaN, signed zeros, infinities, subnormals, MaxFloat (reference = plain Go loop, compared by bit pattern); bmap-live = DeleteFunc/ForEach with callbacks on the live size of the map; "+
 		"recs = element type struct{ID; Name omitempty} (shown as ID*16+nameIndex): shrink/reset the receiver (Clear, Delete, Filter, Replace, Compact, Clip ...), then Unmarshal JSON objects that omit fields, on Unsafe/SafeAny; "+
 		"bmap: sequences of 1..6 calls on the 4 wrappers from nil/empty/populated maps. distinct = distinct case terms; non-trivial = non-empty content or a call with a non-empty argument (bslice), non-empty initial map or more than one call (bmap)")
 }
